@@ -170,7 +170,7 @@ def merge(dumps):
                 out['info'][k] += v
             elif isinstance(v, list) and isinstance(out['info'].get(k), list):
                 for i in v:
-                    if i not in out['info'][k] and len(out['info'][k]) < 200:
+                    if i not in out['info'][k] and len(out['info'][k]) < 3000:
                         out['info'][k].append(i)
             elif isinstance(v, dict) and isinstance(out['info'].get(k), dict):
                 for kk, vv in v.items():
